@@ -15,7 +15,7 @@ pub fn prop() -> Prop {
     Prop {
         id: "C06",
         level: "exploration",
-        rule: "complete cross products: integer boundary lattice (0, ±1, ±2, ±7, ±2^k, ±(2^k±1), k<=60, both range ends, two seed-rotated values) squared x 11 operators x 3 syntactic forms (literal op literal; variable op literal and literal op variable inside a function, which selects the fused opcodes); 26 float values squared x 11 operators; all string pairs of length <=2 over {a,b,é,😀} x 6 comparisons; all 7x7 type pairs x 13 operators; order axioms over all triples of 40-value subsets read through the interpreter. A case is one program; it is non-trivial if it parsed back to the generated tree and the reference model defines its outcome (not Ux); distinct = distinct program texts",
+        rule: "complete cross products: integer boundary lattice (0, ±1, ±2, ±7, ±2^k, ±(2^k±1), k<=60, both range ends, two seed-rotated values) squared x 11 operators x 3 syntactic forms (literal op literal; variable op literal and literal op variable inside a function, which selects the fused opcodes); 26 float values squared x 11 operators; all string pairs of length <=2 over {a,b,é,😀} x 6 comparisons; strings of 3..33 characters (around the machine-word sizes) that differ at one position, at two positions in opposite directions (every pair of positions), by a wide character, or by being a prefix, x 6 comparisons x 2 forms; all 7x7 type pairs x 13 operators; order axioms over all triples of 40-value subsets read through the interpreter. A case is one program; it is non-trivial if it parsed back to the generated tree and the reference model defines its outcome (not Ux); distinct = distinct program texts",
         assumptions: &[
             "the reference model's operator table (refint::infix: i64 checked arithmetic within the 61-bit range, Rust f64, str ordering) is the specification",
             "operand values outside the enumerated lattices are not covered",
@@ -319,6 +319,46 @@ fn run(sh: &mut Shard) {
             }
         }
     }
+    // F3b longer strings: lengths around the machine-word sizes, pairs that differ at TWO positions in opposite
+    // directions (the first difference must decide), at one position, or by being a prefix; wide characters too
+    {
+        let base: Vec<char> = "abcdefghijklmnopqrstuvwxyzabcdefghijklmnopqrstuvwxyz".chars().collect();
+        let mut pairs: Vec<(String, String)> = Vec::new();
+        for len in [3usize, 4, 5, 7, 8, 9, 15, 16, 17, 24, 31, 32, 33] {
+            let positions: Vec<usize> = (0..len).filter(|p| len <= 17 || *p < 2 || *p + 2 >= len || (p % 8 <= 1 || p % 8 == 7)).collect();
+            let mk = |edits: &[(usize, char)]| -> String {
+                let mut v: Vec<char> = base[..len].to_vec();
+                for (p, c) in edits {
+                    v[*p] = *c;
+                }
+                v.into_iter().collect()
+            };
+            for (i, d1) in positions.iter().enumerate() {
+                pairs.push((mk(&[(*d1, 'B')]), mk(&[])));
+                pairs.push((mk(&[(*d1, 'é')]), mk(&[(*d1, '€')])));
+                for d2 in &positions[i + 1..] {
+                    pairs.push((mk(&[(*d1, 'y'), (*d2, 'B')]), mk(&[(*d1, 'B'), (*d2, 'y')])));
+                    pairs.push((mk(&[(*d1, 'é'), (*d2, 'B')]), mk(&[(*d1, 'z'), (*d2, '😀')])));
+                }
+            }
+            for k in 0..len {
+                pairs.push((base[..k].iter().collect(), mk(&[])));
+            }
+            pairs.push((mk(&[]), mk(&[])));
+        }
+        for (a, b) in &pairs {
+            for (x, y) in [(a, b), (b, a)] {
+                for op in CMP_OPS.iter() {
+                    run_case(sh, "string-long", &[es(infix(string(x), op.clone(), string(y)))]);
+                    run_case(
+                        sh,
+                        "string-long",
+                        &[es(call(func("", &["p", "q"], vec![es(infix(id("p"), op.clone(), id("q")))]), vec![string(x), string(y)]))],
+                    );
+                }
+            }
+        }
+    }
     // F2 floats
     let fv = float_values();
     for a in &fv {
@@ -443,7 +483,7 @@ fn replay(sh: &mut Shard, case: &Value) {
 }
 
 fn vacuity(m: &Merged) -> Option<String> {
-    for fam in ["int-literal", "int-var-lit", "int-lit-var", "float", "string", "cross-type", "bool-table", "axioms"] {
+    for fam in ["int-literal", "int-var-lit", "int-lit-var", "float", "string", "string-long", "cross-type", "bool-table", "axioms"] {
         if m.counters.get(&format!("family:{fam}")).copied().unwrap_or(0) == 0 {
             return Some(format!("family {fam} produced no case"));
         }
